@@ -313,7 +313,13 @@ class DescriptorTransaction(_TransactionBase):
 
             # Process deletions last: a descriptor that is created or updated in this transaction can be part of a
             # subtree that is deleted in the same transaction, independent of the order of the calls.
-            tr_items = sorted(self.descriptor_updates.values(), key=lambda item: item.new is None)
+            # Process updates first: an update sets the DescriptorVersion that was calculated when the descriptor was
+            # handed out; version increments caused by created / deleted children must be applied on top of it.
+            def _order(item: TransactionItem) -> int:
+                if item.new is None:
+                    return 2
+                return 0 if item.old is not None else 1
+            tr_items = sorted(self.descriptor_updates.values(), key=_order)
             for tr_item in tr_items:
                 orig_descriptor, new_descriptor = tr_item.old, tr_item.new
                 if orig_descriptor is None:
